@@ -63,8 +63,9 @@ class PandocParser:
     ) -> Section:
         # Add a new section to the card, which can be a subsection, and return
         # it.
-        section_name = "/".join(section_trace)
-        cur_section = card._add_single(section_name, "")
+        # pass the names as a list so that the heading text is used verbatim:
+        # a "/" in a heading does not start a subsection
+        cur_section = card._add_single(list(section_trace), "")
         return cur_section
 
     def _add_content(self, content: str, section: Section | None) -> None:
